@@ -393,6 +393,55 @@ def run(ctx):
     kf_witnesses.run_witness(res, "C18-KF1", kf_witnesses.c18_two_paths_one_signature,
                              "two paths kept with one signature appear as a single node of the graph")
     pipeline.close_ref()
+    # the evaluated function is itself a data function (the usage of the tutorials): the graph is written at every evaluation that
+    # asks for it - also when the result is in the store already, also into a file that holds the graph of another pipeline
+    realr = pipeline.real_runner()
+    for ri, store_kind in enumerate(["memory", "local", "local_lru"]):
+        base = tempfile.mkdtemp(prefix="ddsverif_c18r_")
+        pkg = "c18r_%d_%d" % (os.getpid(), ri)
+        try:
+            realr.reset_process_state()
+            realr.set_store(store_kind, os.path.join(base, "si"), os.path.join(base, "sd"))
+            src = ("import dds\nfrom ddsverif_rt import log, term\n\n"
+                   "@dds.data_function('/c18/raw')\ndef raw():\n    return term('raw')\n\n"
+                   "@dds.data_function('/c18/report')\ndef report():\n    return term('report', raw())\n\n"
+                   "@dds.data_function('/c18/other')\ndef other():\n    return term('other', raw())\n")
+            os.makedirs(os.path.join(base, pkg), exist_ok=True)
+            open(os.path.join(base, pkg, "__init__.py"), "w").close()
+            with open(os.path.join(base, pkg, "main.py"), "w") as fh:
+                fh.write(src)
+            realr.load_world(base, pkg + ".main", None, accept=pkg)
+            graphs = []
+            for step, (fun, fname) in enumerate([("report", "g1.dot"), ("report", "g2.dot"), ("other", "shared.dot"), ("report", "shared.dot"), ("report", "g1.dot")]):
+                out = os.path.join(base, fname)
+                r = realr.run({"kind": "eval", "fun": fun}, {"export_graph": out})
+                res.evaluations += 1
+                res.count("data_function_root_exports")
+                res.nontrivial("data function root export %s %d" % (store_kind, step))
+                bad = None
+                want_nodes = {"/c18/raw", "/c18/" + fun}
+                if r["error"] is not None:
+                    bad = "the evaluation fails: %s" % (r["error"],)
+                elif not os.path.exists(out):
+                    bad = "the graph was requested but the file %s was not written" % fname
+                else:
+                    try:
+                        dn, de = parse_dot(open(out).read())
+                    except BaseException as e:
+                        dn, de = None, str(e)
+                    if dn != want_nodes:
+                        bad = "the file %s shows the nodes %s, the evaluation of %s keeps %s" % (fname, sorted(dn) if dn is not None else de, fun, sorted(want_nodes))
+                if bad:
+                    res.violations.append({"what": "evaluation number %d (%s, a data function, graph exported to %s): %s" % (step + 1, fun, fname, bad),
+                                           "input": {"source": src, "store": store_kind, "step": step}, "kf": None})
+                    break
+                if step in (1, 4):
+                    os.remove(out)
+        finally:
+            shutil.rmtree(base, ignore_errors=True)
+            for k in list(sys.modules):
+                if k.split(".")[0] == pkg:
+                    del sys.modules[k]
     res.rule = ("40 load shapes (placement x producer x order x entry) + %d generated pipelines (every 5th with loads) x entry {eval with DOT export, keep}; nesting depth <= 8, shared sub-nodes, run-time-"
                 "argument keeps; one case = one pipeline, distinct by its signature map" % nworlds)
     res.violations = [v for v in res.violations if not v.get('kf')][:5] + [v for v in res.violations if v.get('kf')]
